@@ -25,6 +25,9 @@ Next == /\ c.t = "none"
                  c' = [t |-> "config", kind |-> k[1], ty |-> k[2], n |-> 2, nc |-> s[1], nd |-> s[2], pre |-> FALSE]
            \/ \E k \in {<<"HMC", "f32/f32">>, <<"NUTS", "f64/f64">>} :
                  c' = [t |-> "config", kind |-> k[1], ty |-> k[2], n |-> 2, nc |-> 257, nd |-> 40, pre |-> FALSE]
+           \* many parameters (24), some of them constant: per-parameter diagnostics are a mix of NaN and finite values
+           \/ \E n \in {1, 4, 7}, s \in Sizes :
+                 c' = [t |-> "config", kind |-> "GibbsWide", ty |-> "f64", n |-> n, nc |-> s[1], nd |-> s[2], pre |-> FALSE]
            \* slow: the chain's transitions take long enough that PERIODIC sends (one per second) happen, not only the final one
            \/ \E s \in Sizes, sl \in BOOLEAN : \E d \in 0..(s[1] + s[2] + 1) :
                  c' = [t |-> "fault", nc |-> s[1], nd |-> s[2], drop_at |-> d, slow |-> sl]
